@@ -269,6 +269,15 @@ fn rates(ctx: &Ctx, rep: &mut Report) {
         for &p in &[1e-3, 0.01, 0.02, 0.1, 0.2501, 0.3, 0.5, 0.51, 0.75] {
             cells.push(Cell::Bloom { n, p });
         }
+        // small targets (many hash functions): only affordable for the mid-sized filter
+        if n == 1000 {
+            for &p in &[1e-4, 1e-6] {
+                cells.push(Cell::Bloom { n, p });
+            }
+        }
+        if n == 50 {
+            cells.push(Cell::Bloom { n, p: 1e-4 });
+        }
     }
     for &bsz in &[4usize, 8] {
         for &n in &[50usize, 1000, 20_000] {
@@ -290,6 +299,9 @@ fn rates(ctx: &Ctx, rep: &mut Report) {
             if mode == HMode::Sip && !matches!(cell, Cell::Bloom { n: 1000, .. } | Cell::Qf { q: 8, .. } | Cell::Cuckoo { n: 1000, .. }) {
                 continue;
             }
+            if mode == HMode::Sip && matches!(cell, Cell::Bloom { p, .. } if *p < 1e-5) {
+                continue; // 19 SipHash evaluations per probe: too slow for the quick budget
+            }
             if let Some(o) = &ctx.only {
                 if !label.contains(o.as_str()) {
                     continue;
@@ -301,7 +313,8 @@ fn rates(ctx: &Ctx, rep: &mut Report) {
                 Cell::Cuckoo { p, .. } => *p,
                 Cell::Qf { q, r, fill } => ((1usize << q) as f64 * fill * 2f64.powi(-((q + r) as i32))).min(1.0),
             };
-            let probes = ((400.0 / (bound_guess * seeds as f64)).ceil() as usize).clamp(2000, 200_000);
+            let target = if bound_guess < 1e-5 { 150.0 } else { 400.0 };
+            let probes = ((target / (bound_guess * seeds as f64)).ceil() as usize).clamp(2000, 2_000_000);
             let seeds = match cell {
                 Cell::Bloom { n, .. } | Cell::Cuckoo { n, .. } if *n >= 20_000 => (seeds / 4).max(32),
                 _ => seeds,
